@@ -50,6 +50,7 @@ public:
     T operator-=(T x) { return static_cast<T>(fetch_sub(x) - x); }
     T operator|=(T x) { return static_cast<T>(fetch_or(x) | x); }
     T operator&=(T x) { return static_cast<T>(fetch_and(x) & x); }
+    bool is_lock_free() const noexcept { return true; }
     T raw() const { return v; }            // harness-only peek (no scheduling, no log)
     void raw_set(T x) { v = x; }
 private:
